@@ -125,12 +125,12 @@ Definition ex_jb_cfg (required : bool) : config :=
   with Some c => c | None => base_config POpenID end.
 (* c1 may use the grant (and refresh), for openid and email; c2 is not registered for it *)
 Definition ex_jb_c1 : client :=
-  mkClient 1 false [GJwtBearer; GRefreshToken] [] [] "openid email" CibaNone false false false false false false false 0 false.
+  mkClient 1 false [GJwtBearer; GRefreshToken] [] [] "openid email" CibaNone false false false false false false false 0 false None.
 Definition ex_jb_c2 : client :=
-  mkClient 2 false [GClientCredentials] [] [] "openid email" CibaNone false false false false false false false 0 false.
+  mkClient 2 false [GClientCredentials] [] [] "openid email" CibaNone false false false false false false false 0 false None.
 Definition ex_jb_world (required : bool) : world := mkWorld (ex_jb_cfg required) [ex_jb_c1; ex_jb_c2].
 Definition ex_jb_req (cr : cred) (scope : string) (a : assertion) : treq :=
-  mkTReq cr (mkBind None 0) scope 0 "" 0 PkEmpty 0 HgOk BaApprove [] a.
+  mkTReq cr (mkBind None 0) scope 0 "" 0 PkEmpty 0 HgOk BaApprove [] a None.
 
 (* an authenticated client: tokens (with a refresh token) for the assertion's subject, within its
    registration; introspection reports that subject and client; `admin` is outside its registration *)
@@ -141,7 +141,7 @@ Lemma ex_jb_authenticated :
            OpToken GJwtBearer (ex_jb_req (mkCred 1 true) "openid admin" (AsOk "alice"));
            OpToken GJwtBearer (ex_jb_req (mkCred 2 true) "openid" (AsOk "alice"));
            OpToken GJwtBearer (ex_jb_req (mkCred 1 true) "openid" AsBad);
-           OpToken GRefreshToken (mkTReq (mkCred 1 true) (mkBind None 0) "" 0 "" (mint 0 KRefresh) PkEmpty 0 HgOk BaApprove [] AsNone)] with
+           OpToken GRefreshToken (mkTReq (mkCred 1 true) (mkBind None 0) "" 0 "" (mint 0 KRefresh) PkEmpty 0 HgOk BaApprove [] AsNone None)] with
   | [Out (OTokens t); Out (OIntro i); Out (OErr EInvalidScope); Out (OErr EUnauthorizedClient); Out (OErr EInvalidGrant); Out (OTokens t2)] =>
       tr_at t = mint 0 KAtOpaque /\ tr_rt t = mint 0 KRefresh /\ tr_idt t = true /\
       in_active i = true /\ in_sub i = "alice" /\ in_client i = 1 /\ in_scope i = "openid email" /\
